@@ -175,9 +175,9 @@ def _suite_one(args):
     t0 = time.time()
     try:
         p = subprocess.run(
-            ["/venv/bin/python", "-m", "pytest", "-q", "-x", "-p", "no:cacheprovider", "--timeout=30",
+            ["/venv/bin/python", "-m", "pytest", "-q", "-x", "-p", "no:cacheprovider", "--timeout=120",
              "--deselect", "tests/func/pglr/test_pglr.py::test_pglr_check", "--deselect", "tests/func/pglr/test_pglr.py::test_pglr_viz"],
-            cwd=d, env=dict(os.environ, PYTHONPATH=d, PYTHONDONTWRITEBYTECODE="1"), capture_output=True, text=True, timeout=600,
+            cwd=d, env=dict(os.environ, PYTHONPATH=d, PYTHONDONTWRITEBYTECODE="1"), capture_output=True, text=True, timeout=1800,
         )
         out = p.stdout[-300:]
         mm = re.search(r"(\d+) passed", out)
@@ -193,6 +193,7 @@ def suite(limit=None):
     done = json.load(open(done_p)) if os.path.exists(done_p) else {}
     todo = [(k, m) for k, m in enumerate(ms) if str(k) not in done][: limit or None]
     print("suite:", len(todo), "to run,", len(done), "done")
+    _master()
     with multiprocessing.Pool(int(os.environ.get("MO_JOBS", "14"))) as pool:
         for n, (k, ok, dt) in enumerate(pool.imap_unordered(_suite_one, todo)):
             done[str(k)] = ok
